@@ -3,7 +3,7 @@ from . import _hub
 
 CONFIG = dict(
     modules=["SigModel.Props.C07"],
-    theorems=["SigModel.Hub.reachable_inv", "SigModel.Hub.C07_no_residue", "SigModel.Hub.C07_ended_in_no_room", "SigModel.Hub.C07_connections", "SigModel.Hub.C07_facts", "SigModel.Hub.C07_limit_check_atomic", "SigModel.Hub.C07_limit_respected", "SigModel.Hub.C07_free_slot_usable"],
+    theorems=["SigModel.Hub.reachable_inv", "SigModel.Hub.C07_no_residue", "SigModel.Hub.C07_ended_in_no_room", "SigModel.Hub.C07_connections", "SigModel.Hub.C07_facts", "SigModel.Hub.C07_limit_check_atomic", "SigModel.Hub.C07_federated_cleared", "SigModel.Hub.C07_limit_respected", "SigModel.Hub.C07_free_slot_usable"],
     generated=["Hub"],
     harness=_hub.HARNESS,
     stats=_hub.stats,
@@ -16,6 +16,6 @@ CONFIG = dict(
 
 MANIFEST = dict(
     text="Lean 4 theorems over the hub model for every finite op sequence: any session id mentioned in any table (room members, in-call sets, room/user/session bus listeners, room-session maps, virtual-session table, expiry/anonymous/dial-out lists, per-backend counts, connections, parent/child links) belongs to a live session, so an ended session is referenced nowhere and a room it emptied is gone; the per-backend count never exceeds the configured limit and a free slot is usable. Tied to the code by regenerated facts (vtable cleanup, in-call membership guard) and the differential hub run with a full table digest at every step; the judge runs the residue and limit checks on the implementation's own tables. Registrations racing for the last free slot and a registration racing with a slot being freed are issued concurrently (battery of short race cases; the fake backend releases the racing auth replies together) and judged on the tables at rest; that the limit is compared and the session recorded inside one critical section is a regenerated fact (C07_limit_check_atomic).",
-    note='Hello is modelled as one atomic step after authentication; its atomicity in the code is the regenerated fact above, concurrent registrations are exercised by the harness (any order of the racing requests must explain the tables at rest) but interleavings inside a registration are not modelled. Limits lowered at run time below the current count (reload) are outside the model. gRPC cluster-wide counts, federation (federatedSessions) not modelled.',
+    note='Hello is modelled as one atomic step after authentication; its atomicity in the code is the regenerated fact above, concurrent registrations are exercised by the harness (any order of the racing requests must explain the tables at rest) but interleavings inside a registration are not modelled. Limits lowered at run time below the current count (reload) are outside the model. gRPC cluster-wide counts are not modelled. Federation is outside the model: the list of federated sessions is covered by a regenerated fact (C07_federated_cleared) and by the judge on the real list (sessions are put on it by the harness directly), not by C07_no_residue.',
     technique="Lean 4 proof (routing refinement over the hub model) + differential correspondence",
 )
